@@ -2,7 +2,6 @@ package cachechk
 
 import (
 	"bytes"
-	"errors"
 	"fmt"
 	"reflect"
 	"sort"
@@ -38,13 +37,12 @@ const findingWalk = "stale-value-after-ancestor-walk"
 const findingPool = "node-pool-lost-in-cached-copy"
 
 type cblock struct {
-	id     int
-	hash   string
-	prev   *cblock
-	round  int64
-	state  util.MerklePatriciaTrieI // closed state (as Block.ClientState)
-	model  map[string][]byte        // key -> stored bytes
-	writes map[string]bool          // keys that got a cache entry in this block (insert / delete / read of a committed txn)
+	id    int
+	hash  string
+	prev  *cblock
+	round int64
+	state util.MerklePatriciaTrieI // closed state (as Block.ClientState)
+	model map[string][]byte        // key -> stored bytes
 }
 
 func (b *cblock) isAncestorOrSelfOf(x *cblock) bool {
@@ -80,7 +78,6 @@ type otxn struct {
 	over    map[string][]byte // nil slice = deleted
 	written map[string]bool   // inserted / deleted in this txn
 	touched map[string]bool   // read / inserted / deleted
-	wroteCacheable bool
 }
 
 type held struct {
@@ -115,12 +112,12 @@ type machine struct {
 	byHash map[string]*cblock
 
 	// non-triviality bookkeeping
-	scrambledKeys   map[string]bool // keys whose read/inserted object was scrambled
-	readAfterScr    bool
-	discardedKeys   map[string]bool // cacheable keys written by a discarded txn
-	readAfterDisc   bool
-	classes         map[string]int
-	skippedKnown    int
+	scrambledKeys map[string]bool // keys whose read/inserted object was scrambled
+	readAfterScr  bool
+	discardedKeys map[string]bool // cacheable keys written by a discarded txn
+	readAfterDisc bool
+	classes       map[string]int
+	skippedKnown  int
 }
 
 func (m *machine) logf(f string, a ...interface{}) {
@@ -545,9 +542,6 @@ func (m *machine) insert() {
 	x.over[k.name] = b
 	x.written[k.name] = true
 	x.touched[k.name] = true
-	if kd.cacheable {
-		x.wroteCacheable = true
-	}
 	m.class("insert:" + kd.name)
 	m.logf("insert %s <- %s (%d bytes)", k.name, src, len(b))
 	if src == "new" {
@@ -573,9 +567,6 @@ func (m *machine) del() {
 		x.over[k.name] = nil
 		x.written[k.name] = true
 		x.touched[k.name] = true
-		if kinds[k.kind].cacheable {
-			x.wroteCacheable = true
-		}
 		m.class("delete:" + kinds[k.kind].name)
 		m.logf("delete %s (present=%v)", k.name, present)
 	}
@@ -689,7 +680,7 @@ func (m *machine) commitOpen(i int) {
 	}
 	m.guarded("BlockCache.Commit", func() { ob.bc.Commit() })
 	m.seq++
-	cb := &cblock{id: len(m.blocks), hash: ob.final, prev: ob.prev, round: ob.round, state: ob.state, model: ob.model, writes: ob.touched}
+	cb := &cblock{id: len(m.blocks), hash: ob.final, prev: ob.prev, round: ob.round, state: ob.state, model: ob.model}
 	m.blocks = append(m.blocks, cb)
 	m.byHash[cb.hash] = cb
 	for k := range ob.touched {
@@ -822,8 +813,6 @@ func (m *machine) tryOp(f func()) {
 	f()
 }
 
-var errSkip = errors.New("skip")
-
 func TestC07_CacheVsTrie(t *testing.T) {
 	if err := checkKinds(); err != nil {
 		t.Fatalf("VERIF-HARNESS-ERROR %v", err)
@@ -851,7 +840,7 @@ func TestC07_CacheVsTrie(t *testing.T) {
 		}
 		// genesis: an empty committed block
 		gdb := util.NewMemoryNodeDB()
-		g := &cblock{id: 0, hash: encryption.Hash("c07-genesis"), round: 0, model: map[string][]byte{}, writes: map[string]bool{}}
+		g := &cblock{id: 0, hash: encryption.Hash("c07-genesis"), round: 0, model: map[string][]byte{}}
 		g.state = util.NewMerklePatriciaTrie(util.NewLevelNodeDB(util.NewMemoryNodeDB(), gdb, false), 0, nil, statecache.NewEmpty())
 		gbc := statecache.NewBlockCache(m.sc, statecache.Block{Round: 0, Hash: g.hash})
 		gbc.Commit()
@@ -922,5 +911,3 @@ func seqInts(n int) []int {
 	}
 	return out
 }
-
-var _ = errSkip
